@@ -439,6 +439,15 @@ milliseconds, and never order equal ones) -/
 theorem stored_order_is_instant_order (m1 m2 : Int) : ltD (toDouble m1) (toDouble m2) = decide (m1 < m2) :=
   AslProofs.DateArith.ltD_toDouble m1 m2
 
+/-- `a - b` (seconds between two stored dates, one more rounding) is shown as exactly the difference of the instants, in
+milliseconds, for any two instants of years 1..9999 -/
+theorem difference_exact (m1 m2 : Int) (h1 : t0 ≤ m1 ∧ m1 ≤ tMax) (h2 : t0 ≤ m2 ∧ m2 ≤ tMax) :
+    roundMsD (diffD (toDouble m1) (toDouble m2)) = m1 - m2 := by
+  obtain ⟨a1, b1, c1⟩ := AslProofs.DateDbl.toDouble_close m1
+  obtain ⟨a2, b2, c2⟩ := AslProofs.DateDbl.toDouble_close m2
+  exact AslProofs.DateArith.diff_close _ _ m1 m2 _ _ c1 c2 a1 b1 a2 b2 (by unfold t0 tMax at *; omega)
+
+example : roundMsD (diffD (toDouble 253402300799999) (toDouble (-62135596800000))) = 315537897599999 := by decide
 example : t0 ≤ 951868799123 + 1000 * 86400 ∧ (951868799123 : Int) + 1000 * 86400 ≤ tMax := by decide
 example : addSecD (toDouble 951868799123) 86400 = (7985578999004791, 23) ∧ roundMsD (7985578999004791, 23) = 951955199123 := by decide
 example : ltD (toDouble 1001) (toDouble 1002) = true ∧ ltD (toDouble 1002) (toDouble 1002) = false := by decide
